@@ -71,6 +71,15 @@ _SHAPES = {
         "module = util.module_from_spec(spec)\nsys.modules[module_name] = module\nloader = spec.loader\n"
         "assert loader is not None\nloader.exec_module(module)\nreturn module.create_model"
     ),
+    # the same with fixes/C08-reimport-stale-bytecode.diff applied (the freshly written source is compiled and
+    # executed instead of loader.exec_module, which may reuse stale byte code): same model -- the module body is
+    # executed in a new module registered under module_name
+    "import_from_path:no-bytecode": (
+        "spec = util.spec_from_file_location(module_name, file_path)\nassert spec is not None\n"
+        "module = util.module_from_spec(spec)\nsys.modules[module_name] = module\nloader = spec.loader\n"
+        "assert loader is not None\nsource = file_path.read_text()\n"
+        "exec(compile(source, str(file_path), 'exec'), module.__dict__)\nreturn module.create_model"
+    ),
     "valid_filename": (
         "value = unicodedata.normalize('NFKD', value).encode('ascii', 'ignore').decode('ascii')\n"
         "value = re.sub('[^\\\\w\\\\s-]', '', value.lower())\n"
@@ -162,7 +171,7 @@ def extract_facts() -> dict[str, Any]:  # noqa: C901, PLR0912, PLR0915
     # ---- _import.py -------------------------------------------------------------------
     for name in ("free_symbols", "_transform_stoichiometry", "import_from_path", "read"):
         f = _fn(imp, name)
-        shapes[name] = f is not None and _norm(_body(f)) == _SHAPES[name]
+        shapes[name] = f is not None and _norm(_body(f)) in (_SHAPES[name], _SHAPES.get(name + ":no-bytecode"))
     if shapes["read"]:
         facts["module_name"] = "StemOnly"
     f = _fn(imp, "valid_filename")
